@@ -3,7 +3,7 @@
 (* (identifier x per-variant rename x payload kind) next to two fixed variants, under every          *)
 (* rename_all rule, several tag/content key pairs, optionally generic or self-recursive.             *)
 EXTENDS SerdeAttrs, TLC, Json
-CONSTANTS Idents, Renames, Kinds, RuleSet, TagPairs, Flavours
+CONSTANTS Idents, Renames, Kinds, RuleSet, TagPairs, Flavours, Spellings
 VARIABLES c
 
 Chars(n) == CASE n = "A" -> <<"A">>
@@ -42,13 +42,17 @@ PairOf(n) == CASE n = "type_content" -> <<"type", "content">>
                [] n = "myTag_my_content" -> <<"myTag", "my_content">>
 
 Init == c \in [enum : {"unit", "tagged"}, ident : Idents, rename : Renames, kind : Kinds, rule : RuleSet,
-               tags : TagPairs, flavour : Flavours]
+               tags : TagPairs, flavour : Flavours, spelling : Spellings]
 Next == UNCHANGED c
 
 RECURSIVE Str(_)
 Str(s) == IF s = <<>> THEN "" ELSE s[1] \o Str(Tail(s))
 
-InScope == c.enum = "unit" => (c.kind = "unit" /\ c.tags = "type_content" /\ c.flavour = "plain")
+\* spelling: how the CONTAINER arguments (tag, content, rename_all) are spread over #[serde(..)] attributes; serde merges every
+\* #[serde(..)] attribute of the item, so the wire strings do not depend on it: merged / split (tag + content, then rename_all) /
+\* split_rev (rename_all first) / apart (an unrelated serde argument and a doc comment first, then one attribute per argument)
+InScope == /\ (c.enum = "unit" => (c.kind = "unit" /\ c.tags = "type_content" /\ c.flavour = "plain"))
+           /\ (c.spelling # "merged" => (c.flavour = "plain" /\ c.tags = "type_content" /\ c.rename = "none"))
 Extra == IF c.enum = "unit" THEN << <<"Other", "unit">> >>
          ELSE << <<"Other", "unit">>, <<"Last", "newtype">> >>
                \o (IF c.flavour = "recursive" THEN << <<"Rec", "newtype">> >> ELSE <<>>)
